@@ -142,6 +142,14 @@ CHECKS = {
           "to top-level inputs keeps searching behind it.",
           "E2 trusted as in C03; flattened naming convention '__' per path segment/index.",
           "DESIGN.md 3/C12"),
+  "C13": ("exploration",
+          "property-based testing (Hypothesis): byte-level comparison of translations across fresh subprocesses with different hash seeds, and behavioural/structural alias detection on generated parametrised hierarchies executed by E2",
+          "Batches of generated designs are translated by both backends under PYTHONHASHSEED 0, 1 and a drawn value plus twice in-process "
+          "(SHA-256 of the emitted files must coincide); naming-focused hierarchies (parameter kinds whose str() coincide, long lists, "
+          "factory-made classes sharing __name__) must yield legal, once-defined modules and every instance must behave like the module "
+          "definition it shares (E2 execution vs PyMTL).",
+          "Two known findings (factory classes and parameter values sharing a module name) are tolerated by exact signature.",
+          "DESIGN.md 3/C13"),
 }
 
 NOT_YET = {}
